@@ -68,7 +68,6 @@ UNIT = dict(
             note='from ANY state of Inv_S (head position < 2^61, arbitrary older cycles and safe bits); the retry loops are complete within the unwinding (unwinding assertions): '
                  'CAS-retry and do-while 1 iteration, for(;;) 1 iteration' + (' + one per burnt ticket; finalized rings: at most G=2 burnt tail tickets' if f else ''))
        for op in ('enq', 'deq') for f in (0, 1) for c, tiers in ((1, ['quick', 'thorough']), (2, ['quick', 'thorough']), (4, ['thorough']), (8, ['thorough']))
-  ] + [
   ] + [dict(id='enq_overtaken_c%d' % c, entry='h_enq_overtaken', defs={'CAP': c, 'Finalizable': 0, 'G': 0}, unwind=2 * c + 2,
             unwindset=['scq_enqueue.0:2', 'scq_enqueue.1:3'], tiers=tiers, cls='shape-complete',
             note='mid-operation state: empty ring, a dequeuer holds head ticket T = tail and has passed slot(T)')
@@ -91,12 +90,13 @@ UNIT = dict(
     'scq.dequeue.empty_iff': dict(deciding=True, text='dequeue returns false iff the ring is abstractly empty; then the result variable is untouched and catchup has made tail == head again (or the threshold ran out on a finalized ring)'),
     'scq.dequeue.blocks_ticket': dict(deciding=True, text='a dequeue that fails on head ticket h leaves slot(h) with cycle(h) (or unsafe), so that an enqueuer still holding tail ticket h cannot publish behind the head'),
     'scq.inv.preserved': dict(deciding=True, text='a failed dequeue leaves a state of Inv_S with empty content'),
-    'scq.finalized.stable': dict(deciding=True, text='no ring operation clears the finalized bit of _tail (nikolaev_queue relies on it: a node, once finalized, never accepts another push)'),
+    'scq.catchup.keeps_finalized': dict(deciding=True, text='dequeue / catchup never clear the finalized bit of _tail: the tail after catchup has the same finalized bit as before (nikolaev_queue relies on it: a node, once finalized, never accepts another push)'),
+    'scq.enqueue.finalized_fails': dict(deciding=True, text='enqueue<.,true> on a finalized ring always returns false, and no enqueue changes the finalized bit'),
     'scq.finalize.sets': dict(deciding=True, text='finalize sets the finalized bit and nothing else; set_threshold(3cap-1) keeps Inv_S'),
     'scq.enqueue.skips_overtaken': dict(deciding=True, text='if a dequeuer has already drawn head ticket T = tail and passed slot(T) (lifted it to cycle(T), or marked it unsafe), enqueue does not publish in slot(T) but at ticket T+1, where head is'),
     'scq.catchup.restores': dict(deciding=True, text='catchup(tail, head) with tail behind head moves the tail position to the head position and writes nothing else'),
   },
-  replays={k: dict(src='replay_scq.cpp') for k in ('scq.enqueue.appends', 'scq.dequeue.takes_first', 'scq.dequeue.empty_iff', 'scq.inv.preserved', 'scq.finalized.stable')},
+  replays={k: dict(src='replay_scq.cpp') for k in ('scq.enqueue.appends', 'scq.dequeue.takes_first', 'scq.dequeue.empty_iff', 'scq.inv.preserved', 'scq.catchup.keeps_finalized', 'scq.enqueue.finalized_fails', 'scq.dequeue.blocks_ticket', 'scq.enqueue.skips_overtaken')},
   canaries=['remap.rotating', 'remap.identity', 'remap.max', 'init.empty', 'init.full', 'init.first_used', 'init.first_empty',
             'enq.appended', 'enq.last_free', 'enq.finalized', 'deq.took', 'deq.took_last', 'deq.empty_threshold', 'deq.empty_catchup', 'deq.empty_gap',
             'finalize.fresh', 'enq_overtaken.lifted', 'enq_overtaken.unsafe', 'deq_stale.reached', 'deq_stale.was_safe', 'catchup.finalized', 'catchup.plain'],
